@@ -9,41 +9,51 @@ VERUS_TRUST = [
 
 PROPS = {
     'C04': dict(
-        units=['builder'],
+        units=['builder', 'prune'],
         deps=[],
         witness=[['c04', '--no-c15'], ['c02', '--random', '20000', '--programs', '600']],
         witness_thorough=[['c04', '--no-c15', '--depth', '3', '--random', '3000000'], ['c02', '--random', '2000000', '--programs', '20000']],
         level='proof',
-        technique='Verus contracts (requires/ensures/decreases + builder invariant) on the real push_* functions, extracted each run',
+        technique='Verus contracts (requires/ensures/decreases + builder invariant) on the real push_* functions and on the real remove_unused_gates (marking, counting, renumbering and filtering loops with invariants; semantic lemma by induction over the wire number), extracted each run',
         claim='Unbounded deductive proof (Verus/Z3) that every gate-emitting function of the real CircuitBuilder returns a wire whose '
               'Boolean function is the literal operation of its operands, re-establishes the builder invariant and preserves the '
               'function of every earlier wire - for every builder state (= every request history), every input assignment, '
-              'de-duplication on or off. remove_unused_gates/build are covered only by a bounded differential search on the real '
-              'code (labelled bounded, not counted as proved).',
+              'de-duplication on or off. remove_unused_gates (unit prune), for every builder state with well-formed gates and every list of requested '
+              'outputs: the marking loop marks a set of gates that contains the gate of every requested output and of every wire of the panic record and '
+              'is closed under operands; the renumbering closure maps a kept wire to its old number minus the number of dropped gates up to it; the '
+              'pruned gate list again reads earlier wires only; and for every input assignment every returned output wire and every wire of the '
+              'renumbered panic record computes, in the pruned list, exactly the Boolean function the corresponding wire computed before '
+              '(wire_pres / rec_pres). Termination of the marking loop is NOT proved (exec_allows_no_decreases_clause). build (translation of the two '
+              'constant wires and of the input wires into the final SSA numbering) is covered only by a bounded differential search on the real code '
+              '(labelled bounded, not counted as proved).',
         note='Trusted: vstd specs of Vec/HashMap; derived Hash/Eq of BuilderGate obey the key model (admit); gate_counter+1 does not '
-             'overflow usize (assume in push_gate); extraction rules R0-R3 (builder unit); Z3/Verus. Unverified: pruning + renumbering (bounded '
-             'search only), composition over compile.',
+             'overflow usize (assume in push_gate); extraction rules R0-R3 (builder unit), R3, R16b, R22b, R31, R32 (unit prune: index loops for the '
+             'iter_mut loops incl. the write-back of the two enum fields, map + collect as a loop, extend of an array as a verified helper); closure '
+             'contract on shift_gate_index_if_necessary; Z3/Verus. Unverified: build, composition over compile.',
         title='optimisations never change the computed function (gate emission: every push_* returns a wire '
-              'computing the literal operation, for every builder state and input assignment; dedup on and off)',
-        unverified=['remove_unused_gates and build (wire renumbering, pruning, panic-record wiring): two bounded differential searches (request sequences; panic operation trees with distinct location fields), not proved',
+              'computing the literal operation, for every builder state and input assignment; dedup on and off; pruning + renumbering of remove_unused_gates preserves every output)',
+        unverified=['build (constant wires, input renumbering, panic-record wiring into the outputs): two bounded differential searches (request sequences; panic operation trees with distinct location fields), not proved',
+                    'termination of the marking loop of remove_unused_gates',
                     'composition over TypedExpr::compile'],
     ),
     'C15': dict(
-        units=['builder'],
+        units=['builder', 'prune'],
         deps=[],
         witness=['c04', '--only-c15'],
         witness_thorough=['c04', '--only-c15', '--depth', '3', '--random', '3000000'],
         level='proof',
-        technique='Verus data-structure invariant (c15) on the real CircuitBuilder, proved preserved by every push_* function',
+        technique='Verus data-structure invariant (c15) on the real CircuitBuilder, proved preserved by every push_* function; Verus contract on the real remove_unused_gates (minimality of the marked set)',
         claim='Unbounded deductive proof (Verus/Z3) of the emission-side invariant: no AND gate with a constant or repeated operand '
               'is ever pushed; with de-duplication on, no two AND gates with the same unordered operand pair; and/xor with a '
-              'constant-false/itself, mux and condswap of equal wires push nothing. Reachability of every gate from an output '
-              '(remove_unused_gates) is covered only by a bounded differential search (not counted as proved).',
-        note='Same trusted base as C04. Unverified: remove_unused_gates (bounded search only); the consequence for whole '
-             'data-movement programs (composition over compile).',
+              'constant-false/itself, mux and condswap of equal wires push nothing. remove_unused_gates (unit prune): in the pruned, renumbered gate list '
+              'every gate belongs to every operand-closed set of gates that contains the requested outputs and the wires of the panic record - i.e. '
+              'every remaining gate reaches an output (all_reach; marking-loop invariant: the marks and the stack lie inside every such set); an AND '
+              'gate keeps non-constant, different operands and no two AND gates get the same operand pair through the renumbering (it is injective on '
+              'kept wires). build (which adds the two constant gates) and the composition over compile are not under contract: bounded differential.',
+        note='Same trusted base as C04. Unverified: build; the consequence for whole data-movement programs (composition over compile).',
         title='emission-side invariant: no AND gate with a constant or repeated operand is ever pushed, with '
-              'de-duplication no two AND gates share an unordered operand pair; trivial and/xor/mux/condswap push nothing',
-        unverified=['"every gate reaches an output" (remove_unused_gates): differential search only',
+              'de-duplication no two AND gates share an unordered operand pair; trivial and/xor/mux/condswap push nothing; after pruning every remaining gate reaches an output',
+        unverified=['build (translation into the final numbering; the two constant gates are exempt by the statement): differential search only',
                     'consequence for whole data-movement programs (composition over compile)'],
     ),
     'C02': dict(
